@@ -395,9 +395,73 @@ def run_module(rec, named, nforests, quick):
             sys.modules.pop(name, None)
 
 
+XPROC_DESC = '''grammar vt_c14_xproc
+start = Stmt*
+class Stmt { name: Word << "=" ; value: Expr ; tags: ("#" >> Word)* ; end: ";" }
+Expr = Num between { left: "*" ; left: "+" ; prefix: "-" }
+class Num { digits: /[0-9]+/ ; unit: Word? ; info: `{'k': digits, 'n': [unit]}` }
+Word = /[a-z]+/
+ignore / +/
+'''
+XPROC_TEXTS = ['a = 1;', 'a = 1 + 2 * 3 kg #x #y; b = -4;', 'long = 12 m * 3 + -7 #tag;', '']
+XPROC_CHILD = '''
+import os, pickle, sys
+sys.path.insert(0, os.environ['VERIF_REPO'])
+from sourcer import Grammar
+g = Grammar(%r)
+objs = [g.parse(t) for t in %r]
+if %r:
+    for o in objs:
+        for x in g.visit(o):
+            hash(x)
+sys.stdout.buffer.write(pickle.dumps(objs))
+'''
+
+
+def cross_process_pickle(rec, quick):
+    """Objects pickled by ANOTHER interpreter -- with its own string-hash seed, after they were hashed
+    there -- and loaded here: equal to what the same text parses to here, with the same hash, usable as
+    a dict key next to it."""
+    import os
+    import subprocess
+    r = observe.compile_grammar(XPROC_DESC)
+    if r[0] != 'ok':
+        rec.violation('xproc:grammar-error', 'Grammar()', dict(kind='xproc'), 'module', r)
+        return
+    g = r[1]
+    fresh = [g.parse(t) for t in XPROC_TEXTS]
+    try:
+        for hseed in (['1', '7', 'random'] if quick else ['1', '2', '3', '7', '99', 'random', 'random', 'random']):
+            for hashed_first in (True, False):
+                env = dict(os.environ, PYTHONHASHSEED=hseed, VERIF_REPO=os.environ.get('VERIF_REPO', '/repo'))
+                p = subprocess.run([sys.executable, '-c', XPROC_CHILD % (XPROC_DESC, XPROC_TEXTS, hashed_first)], env=env,
+                                   stdout=subprocess.PIPE, stderr=subprocess.PIPE, timeout=120)
+                case = dict(kind='xproc', hashseed_of_the_pickling_process=hseed, hashed_before_pickling=hashed_first)
+                if p.returncode != 0:
+                    rec.violation('xproc:child-failed', 'pickling interpreter', case, 'a pickle', p.stderr.decode('utf-8', 'replace')[-300:])
+                    continue
+                loaded = pickle.loads(p.stdout)
+                rec.count('cross_process_pickles')
+                for t, a, b in zip(XPROC_TEXTS, loaded, fresh):
+                    xs, ys = list(g.visit(a)), list(g.visit(b))
+                    for x, y in zip(xs, ys):
+                        rec.case()
+                        rec.nontrivial(('xproc', hseed, hashed_first, t, len(xs)))
+                        rec.count('cross_process_objects_compared')
+                        if not (x == y):
+                            rec.violation('xproc:not-equal', 'object pickled in another process vs parsed here', dict(case, text=t), repr(y)[:200], repr(x)[:200])
+                        elif hash(x) != hash(y) or y not in {x: 1}:
+                            rec.violation('xproc:hash:equal-objects-differ', 'a == b => hash(a) == hash(b), a pickled in another process',
+                                          dict(case, text=t, object=repr(x)[:200]), hash(y), hash(x))
+    finally:
+        sys.modules.pop('vt_c14_xproc', None)
+
+
 def run_shard(rec):
     quick = rec.tier == 'quick'
     rec.deadline = time.time() + (300 if quick else 600)
+    if rec.shard == 1:
+        cross_process_pickle(rec, quick)
     run_module(rec, named=False, nforests=60 if quick else 2500, quick=quick)
     run_module(rec, named=True, nforests=60 if quick else 2500, quick=quick)
 
@@ -405,6 +469,8 @@ def run_shard(rec):
 def replay(rec, rep):
     # forests are regenerated from (seed, shard): re-run that shard's workload
     case = rep['case']
+    if case.get('kind') == 'xproc':
+        return cross_process_pickle(rec, True)
     rec.seed = case.get('seed', rec.seed)
     import random
     rec.rng = random.Random((rec.seed * 1000003 + case.get('shard', 0)) & 0xffffffff)
